@@ -214,7 +214,7 @@ def run(F, rep, tier, allfacts):
     for cn, cf in clos:
         gets = [[describe(cf, a, depth=12) for a in args] for i, c, args, *_ in calls(cf) if callee_matches(c, r"slice::<impl \[T\]>::get$")]
         oob = agg_blocks(cf, r"PanicReason$", "StorageOutOfBounds")
-        rng = [[describe(cf, o, depth=10) for o in rv[3]] for i, j, p, rv, line in assignments(cf) if rv[0] == "agg" and rv[1] == "std::ops::Range"]
+        rng = [[describe(cf, o, depth=10) for o in rv[3]] for i, j, p, rv, line in assignments(cf) if rv[0] == "agg" and rv[1].endswith("ops::range::Range")]
         okb = bool(gets) and bool(oob) and any(len(r) == 2 and "saturating_add(" in r[1] and r[0] in r[1] for r in rng)
         errs = set()
         for i, j, p, rv, line in assignments(cf):
@@ -294,7 +294,7 @@ def run(F, rep, tier, allfacts):
             gf = cg.fns.get(g)
             if gf:
                 for i, j, p, rv, line in assignments(gf):
-                    if rv[0] == "agg" and rv[1] == "fuel_tx::PanicReason":
+                    if rv[0] == "agg" and rv[1].endswith("::PanicReason"):
                         rs.add(rv[2])
         miss = want[op] - rs
         rep.check(not miss, "MAT-panics", "handler:" + op, "%s:%s" % (f["file"], f["line"]), "%s can no longer raise %s" % (op, sorted(miss)))
